@@ -5,6 +5,7 @@ package ice
 // C15 — TCP mux routes connections by ufrag and cleans up after itself.
 
 import (
+	"syscall"
 	"bytes"
 	"encoding/binary"
 	"errors"
@@ -24,19 +25,27 @@ import (
 
 type c15Listener struct {
 	ch     chan net.Conn
+	errs   chan error // errors Accept returns next (a listener under pressure: EMFILE, ECONNABORTED)
 	closed chan struct{}
 	once   sync.Once
 	addr   *net.TCPAddr
 }
 
 func newC15Listener() *c15Listener {
-	return &c15Listener{ch: make(chan net.Conn, 16), closed: make(chan struct{}), addr: &net.TCPAddr{IP: net.IPv4(10, 0, 0, 1), Port: 8443}}
+	return &c15Listener{ch: make(chan net.Conn, 16), errs: make(chan error, 16), closed: make(chan struct{}), addr: &net.TCPAddr{IP: net.IPv4(10, 0, 0, 1), Port: 8443}}
 }
 
 func (l *c15Listener) Accept() (net.Conn, error) {
 	select {
+	case e := <-l.errs:
+		return nil, e
+	default:
+	}
+	select {
 	case c := <-l.ch:
 		return c, nil
+	case e := <-l.errs:
+		return nil, e
 	case <-l.closed:
 		return nil, net.ErrClosed
 	}
@@ -1115,6 +1124,100 @@ func TestVerif_C15_ClaimRacesExpiry(t *testing.T) {
 		}
 		if _, werr := h.WriteTo([]byte("reply"), remote); werr != nil {
 			st.Fail(rt, "C15/provisional/claimed-connection-expired", "%s: writing on the claimed connection: %v", desc, werr)
+		}
+	})
+}
+
+
+// TestVerif_C15_AcceptErrors: a listener under pressure returns temporary errors from Accept (EMFILE while a burst
+// of hostile connections holds the descriptors, ECONNABORTED for a client that gave up). Connections accepted
+// afterwards are attached as usual; the mux keeps serving until it is closed.
+func TestVerif_C15_AcceptErrors(t *testing.T) {
+	st := vfNewStats(t)
+	lf := logging.NewDefaultLoggerFactory()
+	lf.DefaultLogLevel = logging.LogLevelDisabled
+	rapid.Check(t, func(rt *rapid.T) {
+		script := rapid.SliceOfN(rapid.SampledFrom([]string{"client", "client", "EMFILE", "ECONNABORTED"}), 2, 8).Draw(rt, "script")
+		ln := newC15Listener()
+		mux := NewTCPMuxDefault(TCPMuxParams{Listener: ln, Logger: lf.NewLogger("verif"), ReadBufferSize: 64, FirstStunBindTimeout: time.Hour})
+		localIP := net.IPv4(10, 0, 0, 1)
+		h, err := mux.GetConnByUfrag("ue", false, localIP)
+		if err != nil {
+			rt.Fatalf("harness: %v", err)
+		}
+		var clients []*c15Client
+		defer func() {
+			for _, c := range clients {
+				_ = c.conn.Close()
+			}
+			_ = h.Close()
+			done := make(chan struct{})
+			go func() { _ = mux.Close(); close(done) }()
+			select {
+			case <-done:
+			case <-time.After(10 * time.Second):
+			}
+		}()
+		errsBefore := 0
+		clientsAfterError := 0
+		for i, step := range script {
+			switch step {
+			case "EMFILE":
+				ln.errs <- &net.OpError{Op: "accept", Net: "tcp", Err: syscall.EMFILE}
+				errsBefore++
+			case "ECONNABORTED":
+				ln.errs <- &net.OpError{Op: "accept", Net: "tcp", Err: syscall.ECONNABORTED}
+				errsBefore++
+			case "client":
+				a, b := net.Pipe()
+				remote := &net.TCPAddr{IP: net.IPv4(198, 51, 100, 9), Port: 31000 + i}
+				cl := &c15Client{id: len(clients), conn: a, remote: remote, kind: "valid", ufrag: "ue", done: make(chan struct{})}
+				go cl.reader()
+				clients = append(clients, cl)
+				select {
+				case ln.ch <- &c15Conn{Conn: b, local: &net.TCPAddr{IP: localIP, Port: 8443}, remote: remote}:
+				default:
+				}
+				_ = a.SetWriteDeadline(time.Now().Add(20 * time.Second))
+				go func() { _, _ = a.Write(c15Frame(c15StunBinding("ue:peer", true, stun.MethodBinding))) }()
+				if errsBefore > 0 {
+					clientsAfterError++
+				}
+			}
+		}
+		desc := fmt.Sprintf("script=%v", script)
+		st.Record(vfHashStr(desc), clientsAfterError > 0, fmt.Sprintf("clients-after-an-error:%d", min(clientsAfterError, 3)))
+		if clientsAfterError > 0 && st.WantSample() {
+			st.Sample(func() string { return desc })
+		}
+		// every injected error has been returned by Accept …
+		for d := time.Now().Add(5 * time.Second); len(ln.errs) > 0 && time.Now().Before(d); {
+			time.Sleep(100 * time.Microsecond)
+		}
+		time.Sleep(2 * time.Millisecond)
+		// … and the accept loop is still there (the mux has not been closed)
+		buf := make([]byte, 1<<20)
+		if stack := string(buf[:runtime.Stack(buf, true)]); errsBefore > 0 && len(ln.errs) == 0 && !strings.Contains(stack, "TCPMuxDefault).start") {
+			st.Fail(rt, "C15/accept/mux-stops-accepting-after-a-temporary-error", "the accept loop of the mux has ended after a temporary Accept error although the mux was not closed: later clients are accepted by nobody (%s)", desc)
+		}
+		mux.mu.Lock()
+		pc, _ := mux.getConn("ue", false, localIP)
+		mux.mu.Unlock()
+		deadline := time.Now().Add(5 * time.Second)
+		for _, cl := range clients {
+			for {
+				pc.mu.Lock()
+				_, has := pc.conns[cl.remote.String()]
+				pc.mu.Unlock()
+				if has {
+					break
+				}
+				if time.Now().After(deadline) {
+					st.Inconclusive()
+					rt.Fatalf("VERIF-INCONCLUSIVE: client not attached after 5 s")
+				}
+				time.Sleep(100 * time.Microsecond)
+			}
 		}
 	})
 }
